@@ -204,5 +204,17 @@ def build(prop, seed, prof):
         if claim is not None and item['kind'].startswith('p_') and item['kind'] not in ('p_down', 'p_mute', 'p_tick'):
             item['claim'] = claim
         plan.append(item)
+    if prof.get('stats'):
+        from . import statsgen
+        sv['stats_enabled'] = 'all'
+        sv['stats_periods'] = sorted(set(rng.sample([1.0, 5.0, 7.5, 10.0, 30.0, 60.0], rng.randint(1, 3))))
+        sv['stats_histo'] = gen.pick(rng, [10, 10, 11, 15, 25])
+        sv['stats_irix_mode'] = rng.random() < 0.5
+        config['stats_ncores'] = {}
+        for p in pups:
+            items, ncores = statsgen.gen_stream(rng, p, known.get(p) or namespecs[:2], 5.0, t1 + 20.0,
+                                                rng.randint(*prof.get('n_samples', (40, 400))))
+            plan.extend(items)
+            config['stats_ncores'][gen.identifier_of(config, p)] = ncores
     t_end = t1 + prof.get('quiesce', 45.0)
     return {'prop': prop, 'seed': seed, 'config': config, 'plan': plan, 't_end': t_end}
